@@ -176,6 +176,33 @@ class ImplRun:
             rec["oracle"] = self._post_oracle(op, pre)
         return rec
 
+    def _scaler_oracle(self, op, imp, out):
+        """scale=True: the per-arm StandardScaler statistics are an oracle (scikit-learn); the model receives the
+        training rows as the arm's scaler transformed them in this call, and every fitted scaler's (mean_, scale_)"""
+        scalers = {}
+        for a in self.mab.arms:
+            sc = getattr(imp.arm_to_model.get(a), "scaler", None)
+            if sc is not None and hasattr(sc, "scale_") and hasattr(sc, "mean_"):
+                scalers[a] = sc
+        out["scalers"] = [(self.id_of(a), [float(v) for v in sc.mean_], [float(v) for v in sc.scale_])
+                          for a, sc in scalers.items()]
+        c = op.get("c")
+        if c is None:
+            return
+        scaled = []
+        for a, row in zip(op["d"], c):
+            key = a.item() if hasattr(a, "item") else a
+            sc = next((v for k, v in scalers.items() if k == key), None)
+            try:
+                ok = sc is not None and len(row) == len(sc.mean_)
+            except TypeError:
+                ok = False
+            if ok:
+                scaled.append([float(v) for v in sc.transform(np.asarray([row], dtype="float64"))[0]])
+            else:
+                scaled.append(list(row))
+        out["scaled_c"] = scaled
+
     @staticmethod
     def _reward(x):
         if x is None:
@@ -199,6 +226,8 @@ class ImplRun:
         npc = self.cfg.get("np")
         out = {}
         if not npc:
+            if self.cfg["lp"].get("scale") and op["op"] in ("fit", "pfit") and hasattr(imp, "arm_to_model"):
+                self._scaler_oracle(op, imp, out)
             return out
         k = npc["k"]
         kind = op["op"]
@@ -342,7 +371,9 @@ def enc_op(op, run, rec, ksets=None):
         lines.append("%s type=%d ctype=%d d=%s r=%s c=%s" % (
             kind, 1 if op.get("typeok", True) else 0, 1 if op.get("ctypeok", True) else 0,
             nats(run.id_of(a) for a in op["d"]),
-            ",".join(enc_reward(x) for x in op["r"]) if op["r"] else "-", enc_ctx(op.get("c"))))
+            ",".join(enc_reward(x) for x in op["r"]) if op["r"] else "-", enc_ctx(o.get("scaled_c", op.get("c")))))
+        for aid, mu, sc in o.get("scalers", []):
+            lines.append("scaler %d mu=%s sc=%s" % (aid, rats(mu), rats(sc)))
     elif kind in ("pexp", "pred"):
         lines.append("%s ctype=%d c=%s" % (kind, 1 if op.get("ctypeok", True) else 0, enc_ctx(op.get("c"))))
     elif kind == "add":
